@@ -122,7 +122,7 @@ def _ext_poly(Vn, dim, tier="quick"):
 
 _ext_poly(2, 2)
 _ext_poly(4, 2)
-_ext_poly(3, 3, tier="thorough")
+_ext_poly(3, 3)
 
 
 def _check_dominates(m, K, tier="quick"):
@@ -199,7 +199,7 @@ def _check_dominates(m, K, tier="quick"):
 
 
 _check_dominates(2, 2)
-_check_dominates(2, 3, tier="thorough")
+_check_dominates(2, 3)
 
 
 def _convex_lift(m):
